@@ -102,3 +102,18 @@ func init() {
 		return unsafe.Sizeof(p), unsafe.Offsetof(p.x), unsafe.Offsetof(p.y), unsafe.Offsetof(p.z), unsafe.Offsetof(p.isValid), unsafe.Sizeof(affinePoint{})
 	}
 }
+
+// Lookups on a table placed at a caller-chosen ADDRESS (memory the harness manages itself: chosen
+// alignment, or entries lying in an inaccessible page to probe which entries a lookup reads).
+func init() {
+	VerifLookupAffineAt = func(tbl unsafe.Pointer, idx uint64) (out [2][4]uint64) {
+		var ap affinePoint
+		lookupAffinePoint((*affinePointMultTable)(tbl), &ap, idx)
+		return [2][4]uint64{field.VerifLimbs(&ap.x), field.VerifLimbs(&ap.y)}
+	}
+	VerifLookupProjectiveAt = func(tbl unsafe.Pointer, idx uint64) (out [3][4]uint64) {
+		var p Point
+		lookupProjectivePoint((*projectivePointMultTable)(tbl), &p, idx)
+		return [3][4]uint64{field.VerifLimbs(&p.x), field.VerifLimbs(&p.y), field.VerifLimbs(&p.z)}
+	}
+}
